@@ -154,7 +154,12 @@ func (vctx *VersionedCtx) Head() bool {
 		// requires branching info in new DVID
 		return false
 	}
-	return true
+	// the child of a merge carries the master name without being the head of the master branch
+	_, headV, err := manager.getBranchVersion(node.uuid, "master")
+	if err != nil {
+		return false
+	}
+	return headV == vctx.VersionID()
 }
 
 // Head checks whether specified version is on the  master branch
